@@ -9,7 +9,7 @@ from dataclasses import dataclass, field, replace
 
 from packaging.markers import default_environment
 from packaging.specifiers import InvalidSpecifier, Specifier
-from packaging.version import InvalidVersion
+from packaging.version import InvalidVersion, Version
 
 from dep_logic.markers.any import AnyMarker
 from dep_logic.markers.base import BaseMarker, EvaluationContext
@@ -241,13 +241,22 @@ class MarkerExpression(SingleMarker):
 
 
 def _is_reversed_containment(marker: BaseMarker) -> bool:
-    """``"lit" in name`` / ``"lit" not in name``: a substring test on the
-    environment value, which the specifier view (``name in "lit"``) cannot express."""
-    return (
-        isinstance(marker, MarkerExpression)
-        and marker.reversed
-        and marker.op in ("in", "not in")
-    )
+    """Literal-on-the-left atoms whose meaning the specifier view cannot express:
+    ``"lit" in name`` / ``"lit" not in name`` test a substring of the environment
+    value, and in ``"lit" < name`` / ``"lit" > name`` the literal is the candidate
+    version, so PEP 440 excludes it when it is a pre/post-release of the version
+    it is compared with -- which the mirrored atom ``name > "lit"`` does not."""
+    if not (isinstance(marker, MarkerExpression) and marker.reversed):
+        return False
+    if marker.op in ("in", "not in"):
+        return True
+    if marker.op in ("<", ">") and marker.name in _VERSION_VALUED_MARKER_NAMES:
+        try:
+            literal = Version(marker.value)
+        except InvalidVersion:
+            return False
+        return literal.is_prerelease or literal.is_postrelease
+    return False
 
 
 @dataclass(frozen=True, unsafe_hash=True, **DATACLASS_ARGS)
